@@ -108,8 +108,30 @@ InDomain(st, op) ==
     op.op \in {"AddAttr", "AddRel"} =>
         ~(op.name \in DOMAIN st.ctype.fields /\ st.ctype.fields[op.name].kind # op.def.kind)
 
+\* Add of a resource one of whose attributes is named like a relationship of the collection (or
+\* the reverse): the collection keeps its own definition of the field; what value the new item
+\* holds for it is not determined by the property (a string may or may not pass as a to-one id),
+\* so that one value is not compared.
+CrossKind(st, op) ==
+    IF op.op = "Add" THEN
+        LET src == st.srcs[op.src] IN
+        {f \in DOMAIN src.fields \cap DOMAIN st.ctype.fields : src.fields[f].kind # st.ctype.fields[f].kind}
+    ELSE IF op.op = "SetType" THEN   \* a field that changes from attribute to relationship or back
+        {f \in DOMAIN op.typ.fields \cap DOMAIN st.ctype.fields : op.typ.fields[f].kind # st.ctype.fields[f].kind}
+    ELSE {}
+NoVal0 == [nil |-> FALSE, r |-> 0, ids |-> <<>>]
+MaskItem(it, X) == [it EXCEPT !.vals = [f \in DOMAIN it.vals |-> IF f \in X THEN NoVal0 ELSE it.vals[f]]]
+Mask(items, X, op) ==
+    IF items = <<>> \/ X = {} THEN items
+    ELSE IF op.op = "Add" THEN [items EXCEPT ![Len(items)] = MaskItem(items[Len(items)], X)]   \* only the new item
+    ELSE [i \in 1..Len(items) |-> MaskItem(items[i], X)]
+
 Allowed(pre, op, post, ret) ==
-    ~InDomain(pre, op) \/ (LET r == Res(pre, op) IN post = r.post /\ ret = r.ret)
+    ~InDomain(pre, op) \/
+    (LET r == Res(pre, op)
+         X == CrossKind(pre, op)
+     IN /\ ret = r.ret
+        /\ [post EXCEPT !.items = Mask(post.items, X, op)] = [r.post EXCEPT !.items = Mask(r.post.items, X, op)])
 
 -----------------------------------------------------------------------------
 (* Reads: Len, At(i) for i in -1..Len+1, Resource(id)                      *)
